@@ -8,12 +8,13 @@ out=/verif/seeded/catch_matrix.tsv
 tmp=$(mktemp -d)
 ls seeded | grep -v catch_matrix | grep -E "$pat" | while read -r name; do
   prop=$(echo "$name" | cut -d- -f1)
-  also=$(python3 -c "import json;print(' '.join(json.load(open('/verif/seeded/$name/meta.json')).get('also',[])))" 2>/dev/null)
+  also=$(python3 -c "import json;d=json.load(open('/verif/seeded/$name/meta.json'));print('OBSOLETE' if d.get('obsolete') else ' '.join(d.get('also',[])))" 2>/dev/null)
+  if [ "$also" = "OBSOLETE" ]; then printf '%s\t-\t-\t-\tobsolete (see meta.json)\n' "$name" > $tmp/"$name".obs; continue; fi
   echo "$name $prop $also" | sed "s/ *$//"
 done > $tmp/list
 cat $tmp/list | xargs -P "$jobs" -L 1 sh -c 'name=$0; shift 0; /verif/tools/run_mutant.sh "$name" "$@" 2>&1 | grep "^MUTANT" > '$tmp'/"$name".out' 
-cat $tmp/*.out | sed -E 's/^MUTANT ([^ ]+) check=([^ ]+) exit=([0-9]+) violations=([0-9]+) secs=([0-9]+)/\1\t\2\t\3\t\4\t\5/; s/^MUTANT ([^ :]+): (.*)/\1\t-\t-\t-\t\2/' | sort > $tmp/new.tsv
+cat $tmp/*.out $tmp/*.obs 2>/dev/null | sed -E 's/^MUTANT ([^ ]+) check=([^ ]+) exit=([0-9]+) violations=([0-9]+) secs=([0-9]+)/\1\t\2\t\3\t\4\t\5/; s/^MUTANT ([^ :]+): (.*)/\1\t-\t-\t-\t\2/' | sort > $tmp/new.tsv
 if [ "$pat" = "." ]; then cp $tmp/new.tsv $out; else
   touch $out; grep -v -E "$pat" $out > $tmp/old.tsv; cat $tmp/old.tsv $tmp/new.tsv | sort > $out; fi
 rm -rf $tmp
-cat $out | awk -F'\t' '{ if ($3=="1") c++; else m[n++]=$0 } END { print c " caught"; for (i in m) print "NOT CAUGHT / PROBLEM: " m[i] }'
+cat $out | awk -F'\t' '{ if ($3=="1") { c++; caught[$1]=1 } names[$1]=1; line[$1]=line[$1] "\n   " $0 } END { print c " (change, check) pairs caught"; for (n in names) if (!(n in caught)) print "NOT CAUGHT BY ANY LISTED CHECK: " line[n] }'
